@@ -11,14 +11,18 @@ EXTENDS L4RouterAbs
 (***************************************************************************)
 CONSTANTS Chunk,        \* prefetchChunkSize
           Limit,        \* MaxMatchingBytes
-          MaxStream,    \* longest client stream
+          StreamLens,   \* set of client stream lengths
+          PullSizes,    \* set of sizes one socket read issued by prefetch may return (<= Chunk)
+          PullFixed,    \* TRUE: one size is chosen per connection (the client's segment size);
+                        \* FALSE: every read chooses afresh (only affordable for toy constants)
           MaxRoutes,    \* routes in list 1
           MaxSubRoutes, \* routes in list 2 (0: no subroute)
           Shapes,       \* set of routes allowed in list 1
           SubShapes,    \* set of routes allowed in list 2
           WrapMode      \* "copy" (pinned commit) or "handover" (repaired), see L4Segs!ConnWrap
 
-VARIABLES cfg,       \* configuration under construction / fixed
+VARIABLES pullMode,  \* the client's segment size when PullFixed
+          cfg,       \* configuration under construction / fixed
           pos,       \* stream position of the first byte no handler has consumed yet
           slen,      \* length of the client's stream (the client then closes or goes silent)
           endKind,   \* "eof" | "silent"
@@ -27,7 +31,7 @@ VARIABLES cfg,       \* configuration under construction / fixed
           pc,        \* program counter of the innermost invocation
           hist,      \* history of observable events
           ambiguous  \* some evaluation had more than one possible verdict (AND-order)
-vars == <<cfg, slen, endKind, c, frames, pc, hist, ambiguous, pos>>
+vars == <<cfg, slen, endKind, c, frames, pc, hist, ambiguous, pos, pullMode>>
 
 Frame(L) == [l |-> L, i |-> 1, lastM |-> 0, lastNM |-> 0,
              status |-> [k \in 1..Len(cfg.lists[L]) |-> "none"], needMore |-> FALSE]
@@ -45,51 +49,62 @@ Init == /\ cfg = [lists |-> <<<<>>, <<>>>>]
         /\ hist = <<>>
         /\ ambiguous = FALSE
         /\ pos = 0
+        /\ pullMode = 0
 
 HasSub(r) == \E j \in 1..Len(r.hs) : r.hs[j].k = "sub"
 UsesSub == \E j \in 1..Len(cfg.lists[1]) : HasSub(cfg.lists[1][j])
+HasTee(r) == \E j \in 1..Len(r.hs) : r.hs[j].k = "tee"
+UsesTee == \E L \in 1..2 : \E j \in 1..Len(cfg.lists[L]) : HasTee(cfg.lists[L][j])
 \* configurations are built by actions (TLC refuses Init sets above 10^6 elements):
 \* list 1 first, then list 2 if some route refers to it, then the client's stream
 BuildTop == /\ pc = "btop"
             /\ \/ /\ Len(cfg.lists[1]) < MaxRoutes
                   /\ \E r \in Shapes :
                         /\ HasSub(r) => (MaxSubRoutes > 0 /\ ~UsesSub)
+                        /\ HasTee(r) => ~UsesTee          \* one tee per configuration (one branch to observe)
                         /\ cfg' = [cfg EXCEPT !.lists[1] = Append(@, r)]
                   /\ pc' = "btop"
                \/ /\ pc' = (IF UsesSub THEN "bsub" ELSE "benv") /\ UNCHANGED cfg
-            /\ UNCHANGED <<slen, endKind, c, frames, hist, ambiguous, pos>>
+            /\ UNCHANGED <<slen, endKind, c, frames, hist, ambiguous, pos, pullMode>>
 BuildSub == /\ pc = "bsub"
             /\ \/ /\ Len(cfg.lists[2]) < MaxSubRoutes
-                  /\ \E r \in SubShapes : cfg' = [cfg EXCEPT !.lists[2] = Append(@, r)]
+                  /\ \E r \in SubShapes : (HasTee(r) => ~UsesTee) /\ cfg' = [cfg EXCEPT !.lists[2] = Append(@, r)]
                   /\ pc' = "bsub"
                \/ /\ Len(cfg.lists[2]) > 0 /\ pc' = "benv" /\ UNCHANGED cfg
-            /\ UNCHANGED <<slen, endKind, c, frames, hist, ambiguous, pos>>
+            /\ UNCHANGED <<slen, endKind, c, frames, hist, ambiguous, pos, pullMode>>
 BuildEnv == /\ pc = "benv"
-            /\ slen' \in 0..MaxStream
+            /\ slen' \in StreamLens
             /\ endKind' \in {"eof", "silent"}
+            /\ pullMode' \in (IF PullFixed THEN PullSizes ELSE {0})
+            /\ (PullFixed /\ pullMode' < 64) => slen' <= 16       \* tiny segments only with short streams
             /\ frames' = <<Frame(1)>>
             /\ pc' = "arm"
             /\ UNCHANGED <<cfg, c, hist, ambiguous, pos>>
 
 Ev(es) == hist' = hist \o es
-Finish(es) == /\ Ev(es \o <<[e |-> "Return"]>>) /\ pc' = "done"
+\* what a tee branch has read when the run ends: everything read after the (first) tee
+TeeIdx(h) == { k \in 1..Len(h) : h[k].e = "Tee" }
+BranchEv(h) == IF TeeIdx(h) = {} THEN <<>>
+               ELSE LET k == CHOOSE x \in TeeIdx(h) : \A y \in TeeIdx(h) : x <= y IN
+                    <<[e |-> "Branch", segs |-> AppendAll(<<>>, AllReads(SubSeq(h, k + 1, Len(h))))]>>
+Finish(es) == /\ Ev(es \o BranchEv(hist \o es) \o <<[e |-> "Return"]>>) /\ pc' = "done"
 
 \* routes.go 121-126: loop: SetReadDeadline(deadline); the scan restarts at route 0
 Arm == /\ pc = "arm"
        /\ Ev(<<[e |-> "Dl", l |-> Top.l]>>)
        /\ frames' = SetTop([Top EXCEPT !.i = 1])
        /\ pc' = (IF Top.needMore THEN "prefetch" ELSE "scan")
-       /\ UNCHANGED <<cfg, slen, endKind, c, ambiguous, pos>>
+       /\ UNCHANGED <<cfg, slen, endKind, c, ambiguous, pos, pullMode>>
 
 \* routes.go 130-141 + connection.go prefetch
 Prefetch ==
   /\ pc = "prefetch"
   /\ IF Total(c.buf[top]) >= Limit
      THEN /\ Finish(<<[e |-> "Abort", k |-> "full"]>>) /\ UNCHANGED c
-     ELSE \/ \E k \in 1..Chunk :              \* the client's next k bytes are there
+     ELSE \/ \E k \in (IF PullFixed THEN {Min(pullMode, slen - c.sock)} ELSE PullSizes) \cup {1} :   \* the client's next k bytes are there
                /\ c.sock + k <= slen
                /\ LET r == ConnPrefetchRead(c, top, Chunk, c.sock + k) IN
-                  /\ (r.c.sock # c.sock) => (r.c.sock = c.sock + k)   \* one socket read, exactly k bytes
+                  /\ (r.c.sock # c.sock) => (r.c.sock = c.sock + k /\ (PullFixed \/ k \in PullSizes) /\ (PullFixed => k = Min(pullMode, slen - c.sock)))   \* one socket read, exactly k bytes
                   /\ (r.c.sock = c.sock) => (k = 1)                  \* served by a lower layer: k is irrelevant
                   /\ c' = ConnPrefetchApply(r, top)
                   /\ Ev(IF r.c.sock # c.sock THEN <<[e |-> "Pull", n |-> k]>> ELSE <<>>)
@@ -101,7 +116,7 @@ Prefetch ==
                 ELSE /\ UNCHANGED c
                      /\ LET kind == IF endKind = "eof" THEN "eof" ELSE "timeout" IN
                         Finish(<<[e |-> "Sock", k |-> kind], [e |-> "Abort", k |-> kind]>>)
-  /\ UNCHANGED <<cfg, slen, endKind, frames, ambiguous, pos>>
+  /\ UNCHANGED <<cfg, slen, endKind, frames, ambiguous, pos, pullMode>>
 
 \* routes.go 144-151
 Skip(f, i) == i <= f.lastM \/ (f.status[i] = "no" /\ i <= f.lastNM)
@@ -131,6 +146,29 @@ RunHandlers(f, r, i, es0) ==
                  THEN [kind |-> "done", c |-> d.c, sub |-> 0, es |-> es \o rd \o <<[e |-> "HErr"]>>]
                  ELSE Run(j + 1, d.c, es \o rd)
             [] hd.k = "wrap" -> Run(j + 1, ConnWrap(cc, WrapMode), es)
+            \* shipped wrapping handlers, as the router experiences them:
+            \* throttle replaces cx.Conn in place (reads pass through in batches <= burst)
+            [] hd.k = "thr"  -> Run(j + 1, cc, es)
+            \* tee hands the next handler a connection whose reads are copied to the branch
+            [] hd.k = "tee"  -> Run(j + 1, ConnWrap(cc, WrapMode), es \o <<[e |-> "Tee"]>>)
+            \* proxy_protocol consumes the n-byte PROXY header through a buffered reader and
+            \* continues with cx.Wrap(reader)
+            [] hd.k = "pp" ->
+                 IF pos + SumReads(es) # 0
+                 THEN \* not at the start of the stream: what follows is no PROXY header, the handler fails
+                      [kind |-> "done", c |-> cc, sub |-> 0, es |-> es \o <<[e |-> "HErr"]>>]
+                 ELSE
+                 LET d == ConnReadFull(cc, hd.n, slen, <<>>)
+                     rd == IF d.segs = <<>> THEN <<>> ELSE <<[e |-> "HRead", segs |-> d.segs]>> IN
+                 IF d.short    \* what the handler consumed before failing cannot be observed
+                 THEN [kind |-> "done", c |-> d.c, sub |-> 0, es |-> es \o <<[e |-> "HErr"]>>]
+                 ELSE Run(j + 1, ConnWrap(d.c, WrapMode), es \o rd)
+            \* echo is terminal: it reads the connection to its end (and writes it back)
+            [] hd.k = "echo" ->
+                 LET d == ConnDrain(cc, slen, <<>>) IN
+                 [kind |-> "done", c |-> d.c, sub |-> 0,
+                  es |-> es \o (IF d.segs = <<>> THEN <<>> ELSE <<[e |-> "HRead", segs |-> d.segs]>>)
+                            \o <<[e |-> "Term", l |-> f.l, r |-> i]>>]
             [] hd.k = "sub" ->
                  [kind |-> "sub", c |-> cc, sub |-> hd.n,
                   es |-> es \o <<[e |-> "Enter", l |-> hd.n, vis |-> Vis(cc, Len(cc.buf)),
@@ -174,7 +212,7 @@ Scan ==
                        [] res.kind = "sub"  -> /\ Ev(res.es)
                                                /\ frames' = Append(SetTop([f2 EXCEPT !.i = i]), Frame(res.sub))
                                                /\ pc' = "arm"
-  /\ UNCHANGED <<cfg, slen, endKind>>
+  /\ UNCHANGED <<cfg, slen, endKind, pullMode>>
 
 \* the rest of an outer route after its subroute handler fell back: the handlers after "sub"
 \* (the model keeps sub handlers last in their route, so this is lastHandler)
@@ -186,7 +224,11 @@ End ==
          fb == <<[e |-> "Fallback", l |-> f.l, vis |-> CurVis, pos |-> pos]>>
          DoFallback(pre) ==
             IF Len(frames) = 1
-            THEN /\ Finish(pre \o fb) /\ UNCHANGED frames
+            THEN \* the top-level fallback of the harness records itself and reads the rest of the
+                 \* stream (this is what shows that it received the connection intact)
+                 LET d == ConnDrain(c, slen, <<>>) IN
+                 /\ Finish(pre \o fb \o (IF d.segs = <<>> THEN <<>> ELSE <<[e |-> "HRead", segs |-> d.segs]>>))
+                 /\ UNCHANGED frames
             ELSE /\ Ev(pre \o fb)
                  /\ frames' = LET outer == frames[Len(frames) - 1] IN
                               SubSeq(frames, 1, Len(frames) - 2) \o <<[outer EXCEPT !.i = @ + 1]>>
@@ -197,7 +239,7 @@ End ==
           THEN /\ frames' = SetTop([f EXCEPT !.needMore = TRUE])
                /\ pc' = "arm" /\ UNCHANGED hist
           ELSE DoFallback(<<[e |-> "Dl", l |-> 0]>>)
-  /\ UNCHANGED <<cfg, slen, endKind, c, ambiguous, pos>>
+  /\ UNCHANGED <<cfg, slen, endKind, c, ambiguous, pos, pullMode>>
 
 Next == BuildTop \/ BuildSub \/ BuildEnv \/ Arm \/ Prefetch \/ Scan \/ End
 Spec == Init /\ [][Next]_vars
@@ -207,6 +249,9 @@ FairSpec == Spec /\ WF_vars(Next)
 (* What TLC checks on RouterImpl                                           *)
 (***************************************************************************)
 PropsHold == Violations(cfg, hist, Limit, Chunk) = {}
+\* the clauses are prefix-closed except R5b, which speaks about complete histories: for the
+\* real-size configurations it is enough (and much cheaper) to evaluate them on terminal states
+PropsAtEnd == pc = "done" => PropsHold
 Terminates == <>(pc = "done")
 TypeOK == /\ pc \in {"bsub", "btop", "benv", "arm", "prefetch", "scan", "end", "done"}
           /\ Len(c.buf) = Len(c.off)
